@@ -8,6 +8,7 @@ import (
 
 	"github.com/prometheus/client_golang/prometheus"
 	"github.com/resonatehq/resonate/internal/aio"
+	"github.com/resonatehq/resonate/internal/metrics"
 	"github.com/resonatehq/resonate/internal/vx"
 	"github.com/resonatehq/resonate/pkg/message"
 )
@@ -131,4 +132,65 @@ func VH_C18_Ops() {
 		vx.Assert(cs.len == vhCount(cs) && cs.len <= max, "C18:count-consistent-and-within-limit")
 	}
 	vx.Reach("done")
+}
+
+// VH_C18_Loop: the real worker loop (PollWorker.Start) over its three event channels, with select free to
+// pick any ready case: listener A connects, reconnects (A2, same group and id), the handler of the replaced
+// connection A reports its disconnect late, a second listener B of the same group is connected, and a
+// message addressed to (group, id of A) is sent. A2 never disconnects, so once its connect has been
+// processed it must stay registered and open whatever the order of the other events, and the message must
+// be handed to it and to nobody else.
+func VH_C18_Loop() {
+	vx.NondetSelect()
+	vx.BlockOK()
+	connect, disconnect, sq := make(chan *connection, 4), make(chan *connection, 4), make(chan *aio.Message, 2)
+	reg := prometheus.NewRegistry()
+	g := prometheus.NewGauge(prometheus.GaugeOpts{})
+	w := &PollWorker{sq: sq, connect: connect, disconnect: disconnect, metrics: metrics.New(reg), counter: g,
+		connections: connections{max: 3, cnt: g, conns: map[string][]*connection{}}}
+	group, ida, idb := vx.String("group"), vx.String("ida"), vx.String("idb")
+	vx.Assume(vx.And(ida != idb, ida != ""))
+	a := &connection{group: group, id: ida, ch: make(chan []byte, 2)}
+	a2 := &connection{group: group, id: ida, ch: make(chan []byte, 2)}
+	b := &connection{group: group, id: idb, ch: make(chan []byte, 2)}
+	// the producers (http handlers, the sender): events are delivered one at a time, at any select of the loop
+	late := vx.Choose(2) == 1
+	step := 0
+	var msg *aio.Message
+	vx.OnSelect(func() {
+		for step < 5 && vx.Choose(2) == 1 {
+			switch step {
+			case 0:
+				connect <- a
+			case 1:
+				connect <- b
+			case 2:
+				connect <- a2
+			case 3:
+				if late {
+					disconnect <- a // the late report of the replaced connection's handler
+				}
+			case 4:
+				sq <- msg
+			}
+			step++
+		}
+	})
+	mtype := message.Type([]string{"invoke", "notify"}[vx.Choose(2)])
+	data, _ := json.Marshal(&Data{Group: group, Id: ida})
+	calls := 0
+	msg = &aio.Message{Type: mtype, Data: data, Body: []byte("body"), Done: func(ok bool, err error) {
+		calls++
+		vx.Assert(calls == 1, "C18:loop-delivery-reported-exactly-once")
+		got := vx.ChanSends(a.ch) + vx.ChanSends(a2.ch) + vx.ChanSends(b.ch)
+		vx.Assert(got <= 1 && ok == (got == 1), "C18:loop-delivered-iff-exactly-one-listener-accepted")
+		if step >= 4 && len(connect) == 0 {
+			// every connect has been delivered and processed: A2 replaced A and has not gone away
+			vx.Reach("sent-after-reconnect")
+			vx.Assert(vhRegistered(&w.connections, a2) && !vx.ChanClosed(a2.ch), "C18:loop-reconnected-listener-stays-registered")
+			vx.Assert(ok && vx.ChanSends(a2.ch) == 1, "C18:loop-message-reaches-the-addressed-connected-listener")
+		}
+		vx.Assert(vx.ChanSends(a.ch) == 0 || !vx.ChanClosed(a.ch), "C18:loop-nothing-handed-to-a-closed-connection")
+	}}
+	w.Start()
 }
